@@ -17,11 +17,11 @@ package selector
 //@   ensures unproved [C13] forall j {result[j]} :: (0 <= j && j < len(result)) ==> (0 <= result[j] && result[j] < len(endpoints))
 //@   loop 0 invariant 0 - 2147483648 * (rangeindex + 1) <= totalCapacity && totalCapacity <= 2147483647 * (rangeindex + 1)
 //@   loop 1 invariant idToWeight != nil && objof(weightToId) != objof(staticWeightRouterCache)
-//@   loop 1 invariant (objof(staticWeightRouterCache) == objof(atentry(1, staticWeightRouterCache)) || loopfresh(1, staticWeightRouterCache)) && (cap(weightToId) == 0 || loopfresh(1, weightToId))
+//@   loop 1 invariant (objof(staticWeightRouterCache) == objof(atentry(1, staticWeightRouterCache)) || loopfresh(1, staticWeightRouterCache)) && (objof(weightToId) == 0 || loopfresh(1, weightToId))
 //@   loop 2 invariant idToWeight != nil && objof(weightToId) != objof(staticWeightRouterCache)
-//@   loop 2 invariant (objof(staticWeightRouterCache) == objof(atentry(2, staticWeightRouterCache)) || loopfresh(2, staticWeightRouterCache)) && (objof(weightToId) == objof(atentry(2, weightToId)) || loopfresh(2, weightToId))
-//@   loop 3 invariant idToWeight != nil && begin < len(weightToId) && begin >= 0 - 1 && objof(weightToId) != objof(staticWeightRouterCache) && objof(mulTemp) != objof(staticWeightRouterCache) && (cap(mulTemp) == 0 || objof(mulTemp) != objof(weightToId))
-//@   loop 3 invariant (objof(staticWeightRouterCache) == objof(atentry(3, staticWeightRouterCache)) || loopfresh(3, staticWeightRouterCache)) && (cap(mulTemp) == 0 || loopfresh(3, mulTemp))
+//@   loop 2 invariant (objof(staticWeightRouterCache) == objof(atentry(2, staticWeightRouterCache)) || loopfresh(2, staticWeightRouterCache)) && (objof(weightToId) == 0 || objof(weightToId) == objof(atentry(2, weightToId)) || loopfresh(2, weightToId))
+//@   loop 3 invariant idToWeight != nil && begin < len(weightToId) && begin >= 0 - 1 && objof(weightToId) != objof(staticWeightRouterCache) && objof(mulTemp) != objof(staticWeightRouterCache) && (objof(mulTemp) == 0 || objof(mulTemp) != objof(weightToId))
+//@   loop 3 invariant (objof(staticWeightRouterCache) == objof(atentry(3, staticWeightRouterCache)) || loopfresh(3, staticWeightRouterCache)) && (objof(mulTemp) == 0 || loopfresh(3, mulTemp))
 //@   loop 3 decreases begin + 1
 //@   loop 1 modifies elems(staticWeightRouterCache), elems(weightToId)
 //@   loop 2 modifies elems(staticWeightRouterCache), elems(weightToId)
